@@ -1220,3 +1220,6 @@ def run(repo, chk, tier):
     other_histogram_sites(repo, chk)
     chk.info("not decided (statistical): acceptance-rejection counts and weight bound (generator/generator.py, config_loader/sample.py, applications.gen_data), "
              "CDF inversion (generator/linear_interpolation.py, interp_nd.py, breit_wigner.py), near-equal bin populations (np.percentile)")
+    from .c20_thin import check_thinning
+
+    check_thinning(repo, chk)
